@@ -624,6 +624,38 @@ func runSchedCaseT(c *h.Ctx, r *h.Report, cs schedCase) (trace []int, disagreed 
 
 // enumerateSchedules: systematic exploration of every schedule of a small configuration with at most
 // `bound` preemptions (a preemption = switching away from a thread that could continue).
+// pairConfigs: two operations on one registered subscriber, the one with the check-then-act window first, so that
+// a single preemption (inside the window) followed by the whole of the other operation is enough.
+func pairConfigs() []schedCase {
+	d := func(id int) schedOp { return schedOp{Op: "dispatch", ID: id, Topic: 0} }
+	var out []schedCase
+	for _, kind := range []string{"bolt", "local"} {
+		for _, capacity := range []int{1, 1000} {
+			sub := []schedSub{{Topics: []int{0}, Req: "-"}}
+			two := []schedSub{{Topics: []int{0}, Req: "-"}, {Topics: []int{0}, Req: "-"}}
+			pre := []schedOp{{Op: "add", Sub: 0}}
+			pre2 := []schedOp{{Op: "add", Sub: 0}, {Op: "add", Sub: 1}}
+			for _, ops := range [][]schedOp{
+				{d(1), {Op: "disconnect", Sub: 0}}, {{Op: "disconnect", Sub: 0}, d(1)},
+				{d(1), {Op: "remove", Sub: 0}}, {d(1), {Op: "close"}}, {{Op: "close"}, d(1)},
+				{{Op: "disconnect", Sub: 0}, {Op: "disconnect", Sub: 0}}, {d(1), d(2)}, {{Op: "list"}, {Op: "close"}},
+			} {
+				out = append(out, schedCase{Kind: kind, Cap: capacity, Phases: []schedPhase{{Subs: sub, Pre: pre, Ops: ops}}})
+			}
+			// a second subscriber behind the first: what the first one's end does to the fan-out
+			out = append(out, schedCase{Kind: kind, Cap: capacity, Phases: []schedPhase{{Subs: two, Pre: pre2, Ops: []schedOp{d(1), {Op: "disconnect", Sub: 0}}}}})
+			req := "1"
+			if kind == "local" {
+				req = "-"
+			}
+			out = append(out, schedCase{Kind: kind, Cap: capacity, Phases: []schedPhase{{Pre: []schedOp{d(1)}, Subs: []schedSub{{Topics: []int{0}, Req: req}}, Ops: []schedOp{{Op: "add", Sub: 0}, {Op: "disconnect", Sub: 0}}}}},
+				schedCase{Kind: kind, Cap: capacity, Phases: []schedPhase{{Pre: []schedOp{d(1)}, Subs: []schedSub{{Topics: []int{0}, Req: req}}, Ops: []schedOp{{Op: "add", Sub: 0}, {Op: "close"}}}}})
+		}
+	}
+
+	return out
+}
+
 func enumerateSchedules(c *h.Ctx, r *h.Report, base schedCase, bound int) int {
 	last := len(base.Phases) - 1
 	n := len(base.Phases[last].Ops)
@@ -935,7 +967,7 @@ func runSched(c *h.Ctx, r *h.Report) {
 	// one thread of the schedule runs at a time anyway; a single P also makes sync.Pool reuse (and so any
 	// aliasing of pooled objects between operations) deterministic
 	runtime.GOMAXPROCS(1)
-	r.Rule = "controlled schedules at the granularity of synchronisation operations: /repo's bolt.go, local.go and localsubscriber.go are rewritten (go/ast, into a build overlay) so that every lock acquisition, atomic access, channel operation, close, Once.Do, bbolt transaction and subscriber-list call first yields to a cooperative scheduler; exactly one goroutine runs at a time, following a generated schedule (bursts with few preemptions, then round robin; thorough tier: additionally EVERY schedule with at most 2 preemptions of 17 small configurations, enumerated systematically). 2-4 concurrent operations from {Dispatch, AddSubscriber (with/without Last-Event-ID), RemoveSubscriber, Close, GetSubscribers, subscriber Disconnect, consumer receive} on both transports, after a sequential prelude (history, registrations, optional restart), channel capacity in {1,2,3,1000}, retention in {0..3}. The Lean model runs as an acceptor: for every step it must predict the next synchronisation label, whether the thread was blocked, the return value, and at the end the whole observable state. Oracles on the implementation alone: no panic, no deadlock. Non-trivial = schedule with at least one preemption inside an operation; distinct by content."
+	r.Rule = "controlled schedules at the granularity of synchronisation operations: /repo's bolt.go, local.go and localsubscriber.go are rewritten (go/ast, into a build overlay) so that every lock acquisition, atomic access, channel operation, close, Once.Do, bbolt transaction and subscriber-list call first yields to a cooperative scheduler; exactly one goroutine runs at a time, following a generated schedule (bursts with few preemptions, then round robin; additionally EVERY schedule with at most 1 preemption (quick tier) / 2 preemptions (thorough tier) of 61 small configurations, enumerated systematically). 2-4 concurrent operations from {Dispatch, AddSubscriber (with/without Last-Event-ID), RemoveSubscriber, Close, GetSubscribers, subscriber Disconnect, consumer receive} on both transports, after a sequential prelude (history, registrations, optional restart), channel capacity in {1,2,3,1000}, retention in {0..3}. The Lean model runs as an acceptor: for every step it must predict the next synchronisation label, whether the thread was blocked, the return value, and at the end the whole observable state. Oracles on the implementation alone: no panic, no deadlock. Non-trivial = schedule with at least one preemption inside an operation; distinct by content."
 	if c.Replay != "" {
 		var rp struct {
 			Case schedCase `json:"case"`
@@ -947,10 +979,18 @@ func runSched(c *h.Ctx, r *h.Report) {
 	}
 	if c.Thorough() {
 		total := 0
-		for _, cfg := range smallConfigs() {
+		for _, cfg := range append(smallConfigs(), pairConfigs()...) {
 			total += enumerateSchedules(c, r, cfg, 2)
 		}
 		r.CountN("systematic:schedules-with-at-most-2-preemptions", total)
+	} else {
+		// every schedule with at most ONE preemption of the small configurations: the check-then-act windows of
+		// two operations on one subscriber
+		total := 0
+		for _, cfg := range append(smallConfigs(), pairConfigs()...) {
+			total += enumerateSchedules(c, r, cfg, 1)
+		}
+		r.CountN("systematic:schedules-with-at-most-1-preemption", total)
 	}
 	n := c.Scale(500, 20000)
 	for i := 0; i < n; i++ {
